@@ -143,8 +143,13 @@ def run_many(kind, specs, nproc=16, chunk=2):
     if not specs:
         return []
     chunks = [(kind, specs[i:i + chunk]) for i in range(0, len(specs), chunk)]
+    from .pool import robust_map
+
+    def failed(ch, why):
+        return [{"cid": s["cid"], "error": True, "cls": "DriverProcessFailure", "msg": why, "events": [], "cells": [], "T": s["mdl"]["T"],
+                 "seed": s["seed"], "eager": bool(s.get("eager")), "root": "", "N": s.get("N", 0), "mdl": {}} for s in ch[1]]
+
     out = []
-    with ProcessPoolExecutor(max_workers=min(nproc, len(chunks)), mp_context=get_context("spawn")) as ex:
-        for r in ex.map(_chunk, chunks):
-            out.extend(r)
+    for r in robust_map(_chunk, chunks, nproc, failed):
+        out.extend(r)
     return out
